@@ -90,6 +90,14 @@ func fixedBases() []struct {
 		ots = append(ots, t)
 		orows = append(orows, rows...)
 	}
+	// three generated columns, the first one refers to the last one (a forward reference, which SQLite
+	// allows) with another generated column in between: the inspector has to find each expression
+	fw := Table{Name: "o_gen", PK: []string{"id"}, Cols: []Col{{Name: "id", Type: "integer", NotNull: true}, {Name: "a", Type: "integer"},
+		{Name: "g1", Type: "integer", Gen: "`g3` + 1", GenDep: "a", GenVia: "g3"}, {Name: "g2", Type: "integer", Gen: "`a` * 2", Stored: true, GenDep: "a"},
+		{Name: "g3", Type: "integer", Gen: "`a` + 10", GenDep: "a"}, {Name: "w", Type: "text", Default: "'d'"}}}
+	ots = append(ots, fw)
+	orows = append(orows, "INSERT INTO `o_gen` (id, a, w) VALUES (1, 1, 'x')", "INSERT INTO `o_gen` (id, a, w) VALUES (2, NULL, NULL)",
+		"INSERT INTO `o_gen` (id, a, w) VALUES (3, -5, NULL)", "INSERT INTO `o_gen` (id, a, w) VALUES (4, 100, 'y')")
 	bs = append(bs, B{Schema{Tables: ots}, orows})
 	return bs
 }
@@ -156,6 +164,9 @@ func runExhaust(ctx context.Context, w *out.W, tier, tmp, outDir, only string) {
 	ms := []Mode{{Store: "mem", FK: true, Tx: "none"}, {Store: "mem", FK: true, Tx: "file"}, {Store: "mem", FK: false, Tx: "file"}}
 	runCases(ctx, w, cases, func(i int) []Mode {
 		if strings.HasPrefix(cases[i].ID, "x3-") {
+			if tier != "thorough" {
+				return []Mode{{Store: "mem", FK: true, Tx: "none"}, {Store: "file", FK: false, Tx: "file"}}
+			}
 			return []Mode{{Store: "mem", FK: true, Tx: "none"}, {Store: "mem", FK: true, Tx: "file"}, {Store: "file", FK: false, Tx: "file"}}
 		}
 		if cases[i].ID[0] == 'x' {
